@@ -561,6 +561,12 @@ def _execute_finish(c, outcome, args, old):
     span = [s for s in _tx_spans(t) if s[0] < done[0].index < s[1]]
     awaits = [e for e in t if e.kind == "await" and span and span[0][0] < e.index < span[0][1]]
     c.prove("no_await_inside_the_completion_transaction", len(awaits) == 0, kind="post")
+    # the producer's stop time is recorded together with the completion that makes its outputs BUILT: a consumer that
+    # announces such an output is judged by ran_concurrently, which needs that stop time from the moment the output is
+    # visible as BUILT (an await in between lets an amend request slip through with "did not overlap")
+    stops = [e for e in t if e.kind == "record_run_stopped"]
+    c.prove("stop_time_recorded_with_the_completion", tm.mk_bool(
+        len(stops) == 1 and bool(span) and span[0][0] < stops[0].index < span[0][1] and done[0].index < stops[0].index), kind="post")
     drains = [e for e in t if e.kind == "drain"]
     unexpected = cls[0].args["unexpected_input_changes"]
     c.prove("drain_iff_inputs_changed", tm.Iff(tm.mk_bool(len(drains) == 1), B(unexpected)), kind="post")
